@@ -161,8 +161,12 @@ structure TablesOk : Prop where
   agree : tt.setModelAgrees = true
   toks : tt.tokensOk = true
   syms : tt.symsOk = true
+  elem : tt.elementPreserved = true
+  cyc : tt.secondCycleFixed = true
   bacc : bt.tokenAccepted = true
   btoks : bt.tokensOk = true
+  bcyc : bt.bondCycleFixed = true
+  bexpr : bt.expressiblePreserved = true
 
 def headerOf (m : MolV) : Header :=
   ⟨m.name, "SMALL".toList, "USER_CHARGES".toList, (m.atoms.length : Int), some (m.bonds.length : Int)⟩
